@@ -1,6 +1,7 @@
 package core
 
 import (
+	"sort"
 	"go/constant"
 	"go/token"
 	"go/types"
@@ -149,13 +150,45 @@ func (p *Prog) CallReaches(c ssa.CallInstruction, pred func(*ssa.Function) bool)
 	return false
 }
 
-// Callers lists the call-graph edges into fn.
+// Callers lists the call-graph edges into fn in a fixed order (caller name, then call-site position — the call
+// graph keeps its edge lists in map order, and a verdict must not depend on it).
 func (p *Prog) Callers(fn *ssa.Function) []*callgraph.Edge {
 	n := p.CG().Nodes[fn]
 	if n == nil {
 		return nil
 	}
-	return n.In
+	out := make([]*callgraph.Edge, 0, len(n.In))
+	for _, e := range n.In {
+		if e.Caller == nil || e.Caller.Func == nil {
+			continue
+		}
+		out = append(out, e)
+	}
+	key := func(e *callgraph.Edge) string {
+		s := p.Name(e.Caller.Func)
+		if e.Site != nil {
+			s += "@" + p.Pos(e.Site.Pos())
+		}
+		return s
+	}
+	sort.SliceStable(out, func(i, j int) bool { return key(out[i]) < key(out[j]) })
+	return out
+}
+
+// RealCallers is Callers without the callers that live in the control overlay, unless fn is a control itself:
+// a function of the analysed repository is never judged ("every caller does …") by what a control does with it.
+func (p *Prog) RealCallers(fn *ssa.Function) []*callgraph.Edge {
+	all := p.Callers(fn)
+	if p.IsControl(fn) {
+		return all
+	}
+	out := all[:0:0]
+	for _, e := range all {
+		if !p.IsControl(e.Caller.Func) {
+			out = append(out, e)
+		}
+	}
+	return out
 }
 
 // NameIs builds a predicate matching functions by FnRef name.
